@@ -113,6 +113,8 @@ type Sim struct {
 	MaxLive   int
 	Strategy  string
 	Stale     int // reservations that were never claimed
+	Jitters   int // times simulated time was let pass although tasks were runnable
+	IdleWaits int // times the fake clock ran because every task slept
 	idleSlept bool
 	current   *Task         // the task released most recently
 	arrivedCh chan struct{} // poked whenever a task parks (lets an idle scheduler stop waiting for timers)
@@ -768,6 +770,7 @@ func (s *Sim) Run() {
 					}
 					d := time.Since(t0)
 					s.SimTime += d
+					s.IdleWaits++
 					s.logEvent("clock+idle:" + d.String())
 				}
 				continue
@@ -913,6 +916,7 @@ func (s *Sim) passTime(d time.Duration) {
 	}
 	el := time.Since(t0)
 	s.SimTime += el
+	s.Jitters++
 	s.logEvent("clock+jitter:" + el.String())
 }
 
